@@ -69,6 +69,9 @@ def main():
                 outs.append([3, 0])
             except IndexError:
                 outs.append([4])
+        elif k == 'setmode':
+            a.accessmode = act[1]
+            outs.append([0])
         elif k == 'shrink':
             darr.truncate_array(a, act[2])
             outs.append([0])
